@@ -22,7 +22,12 @@ PROP = {
                    "theorem C02_history: for every finite history of all these operations from the empty container the model's sequence equals "
                    "the reference sequence and the invariants hold. The executable model is compared with the real containers operation by "
                    "operation (results, positions, traversals, bounds, complete node shape) on every run."
-                   " TreeNode::GetSplitItemIndex is additionally TRANSLATED from the header text on every run (tools/translate.py) and proved equal to the model's split rule (C02_splitIdx_translated)."),
+                   " TreeNode::GetSplitItemIndex is additionally TRANSLATED from the header text on every run (tools/translate.py) and proved equal to the model's split rule (C02_splitIdx_translated)."
+                   " Second wave (tools/trspecs/Wave2.py, Proof/TrEqWave2Tree.lean): Node::pvGetLeafMemPoolIndex / IsLeaf / GetCapacity / leafMemPoolCount / the "
+                   "constructor's byte cast (details/TreeNode.h), the tests and CreateNode sizes of pvAdd / GrowLeafNode / pvSplitNode, the three tests of "
+                   "pvRebalance(parentNode, index, savedNode) and the WHOLE binary-search loop of pvFindFirst(node, pred) (TreeSet.h) are translated on every run "
+                   "and proved equal to leafCap / capOf / addLeaf / tryMerge / findBin (C02_node_capacity_translated, C02_add_leaf_translated, "
+                   "C02_merge_test_translated, C02_find_bin_translated)."),
     "level_note": ("Nothing is left partial at the level of the model. Trusted: Lean kernel, the three standard axioms (the reference semantics "
                    "of merge tests well-formedness of the other container classically), extractor, correspondence harness (g++ -fno-access-control, "
                    "ASan+UBSan). Modelled not verified: parent pointers (abstracted to paths; the bottom-up loops are unwound along the path), item "
@@ -50,6 +55,10 @@ PROP = {
         "Momo.BTree.C02_history",
         "Momo.BTree.C02_history_core",
         "Momo.BTree.C02_splitIdx_translated",
+        "Momo.BTree.C02_node_capacity_translated",
+        "Momo.BTree.C02_add_leaf_translated",
+        "Momo.BTree.C02_merge_test_translated",
+        "Momo.BTree.C02_find_bin_translated",
     ],
     "harnesses": [
         {"name": "c02_btree_p%d" % k, "src": "c02_btree.cpp", "sanitize": "asan", "flags": ["-DC02_PART=%d" % k, "-O0"],
